@@ -78,7 +78,7 @@ class BaseSpectrum:
             'amplitude': 'flux', 'x_break': 'wave',
             'alpha_1': u.dimensionless_unscaled,
             'alpha_2': u.dimensionless_unscaled},
-        'Const1D': {'amplitude': 'noconv'},
+        'Const1D': {'amplitude': 'flux'},
         'ConstFlux1D': {'amplitude': 'noconv'},
         'Empirical1D': {'points': 'wave', 'lookup_table': 'flux'},
         'ExtinctionModel1D': {'points': 'wave', 'lookup_table': 'flux'},
@@ -1150,6 +1150,12 @@ class SourceSpectrum(BaseSourceSpectrum):
         """Process individual model parameter representing flux."""
         if isinstance(pval, u.Quantity):
             self._validate_flux_unit(pval.unit)
+            # Model without a reference wavelength (e.g., Const1D).
+            if wave is None and pval.unit != self._internal_flux_unit:
+                raise exceptions.SynphotError(
+                    'Flux in {0} cannot be converted without a reference '
+                    'wavelength; use {1}.'.format(
+                        pval.unit, self._internal_flux_unit))
             outval = units.convert_flux(self._redshift_model(wave), pval,
                                         self._internal_flux_unit).value
         else:  # Assume already in internal unit
